@@ -206,7 +206,7 @@ def report_table(cc, t, devs, route):
     consequence of one thing (the reader consumes a component per object for attributes that objects do not carry)."""
     inv = crash_shape(t) == 'invariant'
     for sig, detail in devs:
-        if inv and sig not in (SIG_VSINGL,) and not sig.startswith(('set-', 'template-')):
+        if inv and sig not in (SIG_VSINGL, SIG_ABSENT) and not sig.startswith(('set-', 'template-')):
             sig = SIG_INVARIANT
         cc.dev(ORACLE, sig, '[%s] set %r record %d: %s' % (route, t['type'], t['record'], detail))
 
@@ -394,7 +394,7 @@ def run_subsets(ctx, part, tier, shard, nshards):
 
 def parts(tier):
     return [EnumPart('characteristic-subsets', run_subsets, check_subset),
-            HypPart('logical-files', L.logical_files(), check_file, 1400, 40000)]
+            HypPart('logical-files', L.logical_files(), check_file, 2200, 80000)]
 
 
 def exhaustive_note(tier, total):
